@@ -104,6 +104,8 @@ structure World where
   /-- stake of the miner registered for an account (`miner.Stake`, kept in the storage of the miner
       database account; read by `GetMiner`, written by `AddStake` / `GetRefundStake`) -/
   stake : AMap Nat := []
+  /-- the refund counter (`AddRefund`; journaled; cleared by `Finalise`, not by `Prepare`) -/
+  refund : Nat := 0
   deriving Repr, Inhabited
 
 namespace World
@@ -168,6 +170,10 @@ def addLog (w : World) (a : Addr) (ntopics tag : Nat) : World :=
 def setTransient (w : World) (a : Addr) (k v : Nat) : World :=
   { w with transient := w.transient.set a k v }
 
+/-- `gasSelfdestruct`: `if !HasSuicided(self) { AddRefund(SelfdestructRefundGas) }` -/
+def selfdestructRefund (w : World) (self : Addr) : World :=
+  if w.hasSuicided self then w else { w with refund := w.refund + 24000 }
+
 def addAccess (w : World) (a : Addr) : World :=
   if w.access.contains a then w else { w with access := a :: w.access }
 
@@ -197,9 +203,10 @@ structure Scratch where
   thash : Nat
   txIndex : Nat
   logSize : Nat
+  refund : Nat
 
 def scratch (w : World) : Scratch :=
   { transient := w.getTransient, access := w.inAccessList, thash := w.thash,
-    txIndex := w.txIndex, logSize := w.logSize }
+    txIndex := w.txIndex, logSize := w.logSize, refund := w.refund }
 
 end Rangers.Model.Evm12
